@@ -96,11 +96,16 @@ class _Instruction(ConfigurationPhaseInstruction):
 
     def main(self, configuration_builder: ConfigurationBuilder) -> svh.SuccessOrValidationErrorOrHardError:
         new_path = self._new_path()
-        if not new_path.exists():
-            return _validation_error('Directory does not exist', new_path)
-        if not new_path.is_dir():
-            return _validation_error('Not a directory', new_path)
-        configuration_builder.set_hds_dir(self.dir_to_set, new_path.resolve())
+        try:
+            if not new_path.exists():
+                return _validation_error('Directory does not exist', new_path)
+            if not new_path.is_dir():
+                return _validation_error('Not a directory', new_path)
+            resolved_path = new_path.resolve()
+        except OSError as ex:
+            # E.g. a file name too long for the OS
+            return _validation_error(ex.strerror or 'Cannot access directory', new_path)
+        configuration_builder.set_hds_dir(self.dir_to_set, resolved_path)
         return svh.new_svh_success()
 
     def _new_path(self) -> pathlib.Path:
